@@ -4,8 +4,7 @@ package leveldb
 // storage listing: it never removes a table of the current version, the
 // current or a newer manifest, or a journal at or after the one still needed
 // (the frozen journal if there is one); every other manifest, journal and
-// table in the listing is removed exactly once, temporary files are left
-// alone; and when a live table is missing it reports corruption and removes
+// table and every temporary file in the listing is removed exactly once; and when a live table is missing it reports corruption and removes
 // nothing.
 
 import (
@@ -102,6 +101,9 @@ func ZZ_C07_sweep() {
 					return true
 				}
 			}
+			return false
+		case storage.TypeTemp:
+			// left by an interrupted Recover; nothing uses it once the DB opens
 			return false
 		}
 		return true
